@@ -461,6 +461,15 @@ smt.axiom('binarized.at', smt.forall([_b, _d, _r, _i], T.rat(bmap(_b, _d, _r), _
           ['binarized'])
 
 
+_d2 = z3.Const('d2', ASeq)
+_r2 = z3.Const('r2', RSeq)
+# element-wise map distributes over concatenation (validated in lemmas/lean/SeqLaws.lean: binarized_concat)
+smt.axiom('binarized.concat', smt.forall([_b, _d, _r, _d2, _r2], z3.Implies(
+    T.alen(_d) == T.rlen(_r),
+    bmap(_b, T.aconcat(_d, _d2), T.rconcat(_r, _r2)) == T.rconcat(bmap(_b, _d, _r), bmap(_b, _d2, _r2))),
+    [bmap(_b, T.aconcat(_d, _d2), T.rconcat(_r, _r2))]), ['binarized'], 'lemma')
+
+
 @specfn('binarized')
 def _binarized(run, b, d, r):
     """rewards converted by the binarizer: binarizer(decision_i, reward_i) for every row"""
@@ -955,3 +964,29 @@ def _as_row(run, v):
 @specfn('rng_init_of')
 def _rng_init_of(run, seed):
     return OpaqueV(T.rng_init(intterm(seed)), 'rngstate')
+
+
+@specfn('isperm')
+def _isperm(run, p, n):
+    """p is a permutation of 0 .. n-1 (an index array that visits every row exactly once)"""
+    from .laws import isperm
+    return BoolV(isperm(_seq(run, p, 'I').term, intterm(n)))
+
+
+@specfn('take')
+def _take(run, r, p):
+    """r[p] for an index array p (NumPy fancy indexing)"""
+    r = _seq(run, r, None) if not isinstance(r, MatV) else r
+    pt = _seq(run, p, 'I').term
+    la = _la()
+    if isinstance(r, MatV):
+        return MatV(la.mtake(r.term, pt))
+    return SeqV(r.kind, {'A': la.atake, 'R': la.rtake}[r.kind](r.term, pt))
+
+
+@specfn('rscaled')
+def _rscaled(run, k, r):
+    """k * r element-wise"""
+    from .libnp import rscale
+    return SeqV('R', rscale(real(k), _seq(run, r, 'R').term))
+
